@@ -187,6 +187,7 @@ class ImplWorld:
         self.vars = {}
         self.dicts = []
         self.embcx = {}     # embedding var -> complex var
+        self.iters = {}     # iterator var -> [python iterator, filtration var, steps taken]
 
     # -- arguments
     def attr(self, T):
@@ -315,6 +316,16 @@ class ImplWorld:
             for n, c in enumerate(V[f].complexes()):
                 V[pre + str(n)] = c
             return None
+        if kw == 'iter':
+            # (implementation-side only, scripted as `! iter it f`) start iterating over f.complexes()
+            it = T.next(); f = T.next()
+            self.iters[it] = [iter(V[f].complexes()), f, 0]; return None
+        if kw == 'nextc':
+            # script form: nextc w it ; annotated for the model: nextof w f <position>
+            w = T.next(); it = T.next(); st = self.iters[it]
+            self.annot = 'nextof %s %s %d' % (w, st[1], st[2])
+            st[2] += 1
+            V[w] = next(st[0]); return None
         if kw == 'complexes-partial':
             # (implementation-side only) take n snapshots from the iterator and abandon it
             f = T.next(); n = T.nat(); it = iter(V[f].complexes())
